@@ -31,7 +31,7 @@ fn alphabets() -> Vec<(&'static str, &'static str, Vec<Value>)> {
         ("s", "string", vec![json!(""), json!("a"), json!("aa"), json!("ab"), json!("b"), json!("A"), json!("é"), json!("abc"), json!("123"), json!("1234"), json!("z"), json!("zz"), json!("~"), json!("a b")]),
         ("b", "bool", vec![json!(true), json!(false)]),
         ("e", "enum", vec![json!("x"), json!("y"), json!("z")]),
-        ("d", "datetime", vec![json!(1699999199), json!(1699999200), json!(1700002799), json!(1700002800), json!(1700006399), json!(1700006400), json!(1700006401), json!(1700092799), json!(1700092800), json!(1700000000), json!(1700003600), json!(1700010000), json!(1700050000), json!(1700090000)]),
+        ("d", "datetime", vec![json!(1699999199), json!(1699999200), json!(1700002799), json!(1700002800), json!(1700006399), json!(1700006400), json!(1700006401), json!(1700092799), json!(1700092800), json!(1700000000), json!(1700003600), json!(1703456000), json!(1696976000), json!(1700090000)]),
     ]
 }
 
@@ -531,7 +531,7 @@ pub fn check(tier: &str) -> i32 {
         coverage: json!({
             "evaluations": v["probes"],
             "distinct_nontrivial": v["nontrivial"],
-            "rule": "zones of 3 rows holding every multiset of 3 positions of a 14-value alphabet per kind (signed ints across byte boundaries and both extremes, u64 around 2^63 and 2^64, floats incl. -0.0 / 5e-324 / 1e308, strings incl. empty / prefix-related / non-ASCII / numeric-looking, bools, enum variants, instants on hour and day boundaries; quick: every third multiset) plus segments of 1, 3 (last partial), 11 and 12 zones; planned and written through ZonePlanner::plan + ZoneWriter::write_all (what a flush does per event type); each structure file that exists is loaded and probed: zone SuRF (>=, >, <=, < with every alphabet value, absent values and literals of another numeric kind, encoded as the range pruner encodes them), per-zone and per-field membership filters (=), enum bitmaps (=, != per variant), calendar hour/day buckets and per-zone time index (every stored instant), context index; then the same kinds of zones are STOREd and FLUSHed through the real shard (segments of many, 1, 3 and 12 zones in one shard) and every probe `field op literal` (=, !=, <, <=, >, >= x the alphabet, absent values and literals of another numeric kind) is planned by the real QueryPlan and answered by the real ZoneCollector (index strategy choice + pruners + combination): every (segment, zone) holding a matching row must be among the candidates; oracle = brute-force scan of the zone's values with a typed comparison; distinct_nontrivial = probes for which some zone holds a match and (for range probes) the structure excluded at least one zone",
+            "rule": "zones of 3 rows holding every multiset of 3 positions of a 14-value alphabet per kind (signed ints across byte boundaries and both extremes, u64 around 2^63 and 2^64, floats incl. -0.0 / 5e-324 / 1e308, strings incl. empty / prefix-related / non-ASCII / numeric-looking, bools, enum variants, instants on hour and day boundaries and two instants 35 / 40 days away, so that some zones span more than a month while others cover the same hours narrowly; quick: every third multiset) plus segments of 1, 3 (last partial), 11 and 12 zones; planned and written through ZonePlanner::plan + ZoneWriter::write_all (what a flush does per event type); each structure file that exists is loaded and probed: zone SuRF (>=, >, <=, < with every alphabet value, absent values and literals of another numeric kind, encoded as the range pruner encodes them), per-zone and per-field membership filters (=), enum bitmaps (=, != per variant), calendar hour/day buckets and per-zone time index (every stored instant), context index; then the same kinds of zones are STOREd and FLUSHed through the real shard (segments of many, 1, 3 and 12 zones in one shard) and every probe `field op literal` (=, !=, <, <=, >, >= x the alphabet, absent values and literals of another numeric kind) is planned by the real QueryPlan and answered by the real ZoneCollector (index strategy choice + pruners + combination): every (segment, zone) holding a matching row must be among the candidates; oracle = brute-force scan of the zone's values with a typed comparison; distinct_nontrivial = probes for which some zone holds a match and (for range probes) the structure excluded at least one zone",
             "samples": v["samples"],
             "structure_files_loaded": v["structures"],
             "exhaustive": true,
